@@ -89,6 +89,7 @@ package fox
 //@   modifies txn.rootTxn, held[&txn.fox.mu], lockOps[&txn.fox.mu]
 //@   panics-when panicking != nil
 //@   assert-at panic#1 : reraised: panic_value == panicking && (txn.write ==> txn.rootTxn == nil) && (old(txn.write && txn.rootTxn != nil) ==> !held[&txn.fox.mu]) && pubCount[&txn.fox.tree] == old(pubCount[&txn.fox.tree])
+//@   ensures must-reraise: panicking == nil
 //@   ensures settled: txn.write ==> txn.rootTxn == nil
 //@   ensures nothing-published: pubCount[&txn.fox.tree] == old(pubCount[&txn.fox.tree]) && published[&txn.fox.tree] == old(published[&txn.fox.tree])
 //@   ensures unlocked: old(txn.write && txn.rootTxn != nil) ==> !held[&txn.fox.mu]
@@ -99,6 +100,7 @@ package fox
 //@   modifies txn.rootTxn
 //@   panics-when panicking != nil
 //@   assert-at panic#1 : reraised: panic_value == panicking && held[&txn.fox.mu] == old(held[&txn.fox.mu]) && lockOps[&txn.fox.mu] == old(lockOps[&txn.fox.mu])
+//@   ensures must-reraise: panicking == nil
 //@   ensures nolock: held[&txn.fox.mu] == old(held[&txn.fox.mu]) && lockOps[&txn.fox.mu] == old(lockOps[&txn.fox.mu]) && pubCount[&txn.fox.tree] == old(pubCount[&txn.fox.tree])
 
 //@ func (*Router).Updates props C04,C15
